@@ -1,6 +1,7 @@
 package exec
 
 import (
+	"go/token"
 	"go/types"
 
 	"golang.org/x/tools/go/ssa"
@@ -47,24 +48,35 @@ func (ex *Exec) namedType(pkg, name string) types.Type {
 }
 
 // mkTime builds a time.Time value holding ns (monotonic nanoseconds of the model clock) in its ext field.
-func (ex *Exec) mkTime(ns int64) Value {
+func (ex *Exec) mkTime(ns Value) Value {
 	t := ex.namedType("time", "Time")
 	v := zero(t).(*Struct)
-	v.F[1].V = ns // ext
+	v.F[1].V = ns // ext: int64 nanoseconds of the model clock, concrete or a 64-bit term
 	return v
 }
 
-func timeNS(v Value) int64 {
+// timeNSV: the nanoseconds of a time value (an int64 or a symbolic 64-bit term).
+func timeNSV(v Value) Value {
 	st, ok := v.(*Struct)
 	if !ok || len(st.F) < 2 {
 		panic(engineErr("time value expected, got %T", v))
 	}
-	ns, ok := st.F[1].V.(int64)
+	return st.F[1].V
+}
+
+// timeNS: the nanoseconds of a time value that must be concrete here.
+func timeNS(v Value) int64 {
+	ns, ok := timeNSV(v).(int64)
 	if !ok {
-		panic(engineErr("symbolic time value"))
+		panic(engineErr("symbolic time value where a concrete one is needed"))
 	}
 	return ns
 }
+
+var tInt64 = types.Typ[types.Int64]
+
+// i64: 64-bit integer arithmetic / comparison on concrete or symbolic operands.
+func (ex *Exec) i64(op token.Token, x, y Value) Value { return ex.binop(op, tInt64, x, y, nil) }
 
 func (ex *Exec) newCtx(parent *Opaque, envCancellable bool) *Opaque {
 	c := ex.newOpaque("context")
@@ -140,18 +152,16 @@ func init() {
 	// a deadline may pass at any scheduling point
 	stdModels["context.WithTimeout"] = func(ex *Exec, c *frame, fn *ssa.Function, a []Value) Value {
 		res := withCancel(true)(ex, c, fn, a).(Tuple)
-		if d, ok := a[1].(int64); ok {
-			res[0].(Iface).V.(*Opaque).Fields["deadline"] = ex.scheduler().now + d
-		}
+		res[0].(Iface).V.(*Opaque).Fields["deadline"] = ex.i64(token.ADD, ex.scheduler().now, a[1])
 		return res
 	}
 	stdModels["context.WithDeadline"] = func(ex *Exec, c *frame, fn *ssa.Function, a []Value) Value {
 		res := withCancel(true)(ex, c, fn, a).(Tuple)
-		res[0].(Iface).V.(*Opaque).Fields["deadline"] = timeNS(a[1])
+		res[0].(Iface).V.(*Opaque).Fields["deadline"] = timeNSV(a[1])
 		return res
 	}
 	stdModels["time.Until"] = func(ex *Exec, c *frame, fn *ssa.Function, a []Value) Value {
-		return timeNS(a[0]) - ex.scheduler().now
+		return ex.i64(token.SUB, timeNSV(a[0]), ex.scheduler().now)
 	}
 	stdModels["context.WithValue"] = func(ex *Exec, c *frame, fn *ssa.Function, a []Value) Value {
 		return a[0]
@@ -181,13 +191,13 @@ func init() {
 	opaqueMethods["context.Deadline"] = func(ex *Exec, caller *frame, op *Opaque, args []Value) Value {
 		// the nearest deadline up the chain of contexts
 		for o := op; o != nil; {
-			if d, ok := o.Fields["deadline"].(int64); ok {
+			if d, has := o.Fields["deadline"]; has && d != nil {
 				return Tuple{ex.mkTime(d), true}
 			}
 			p, _ := o.Fields["parent"].(*Opaque)
 			o = p
 		}
-		return Tuple{ex.mkTime(0), false}
+		return Tuple{ex.mkTime(int64(0)), false}
 	}
 
 	// ---- time ----
@@ -197,50 +207,48 @@ func init() {
 	stdModels["(time.Time).UTC"] = func(ex *Exec, c *frame, fn *ssa.Function, a []Value) Value { return a[0] }
 	stdModels["(time.Time).Local"] = stdModels["(time.Time).UTC"]
 	stdModels["(time.Time).Add"] = func(ex *Exec, c *frame, fn *ssa.Function, a []Value) Value {
-		d, ok := a[1].(int64)
-		if !ok {
-			panic(engineErr("symbolic duration"))
-		}
-		return ex.mkTime(timeNS(a[0]) + d)
+		return ex.mkTime(ex.i64(token.ADD, timeNSV(a[0]), a[1]))
 	}
 	stdModels["(time.Time).Sub"] = func(ex *Exec, c *frame, fn *ssa.Function, a []Value) Value {
-		return timeNS(a[0]) - timeNS(a[1])
+		return ex.i64(token.SUB, timeNSV(a[0]), timeNSV(a[1]))
 	}
 	stdModels["(time.Time).Before"] = func(ex *Exec, c *frame, fn *ssa.Function, a []Value) Value {
-		return timeNS(a[0]) < timeNS(a[1])
+		return ex.i64(token.LSS, timeNSV(a[0]), timeNSV(a[1]))
 	}
 	stdModels["(time.Time).After"] = func(ex *Exec, c *frame, fn *ssa.Function, a []Value) Value {
-		return timeNS(a[0]) > timeNS(a[1])
+		return ex.i64(token.GTR, timeNSV(a[0]), timeNSV(a[1]))
 	}
 	stdModels["(time.Time).Equal"] = func(ex *Exec, c *frame, fn *ssa.Function, a []Value) Value {
-		return timeNS(a[0]) == timeNS(a[1])
+		return ex.i64(token.EQL, timeNSV(a[0]), timeNSV(a[1]))
 	}
 	stdModels["(time.Time).IsZero"] = func(ex *Exec, c *frame, fn *ssa.Function, a []Value) Value {
-		return timeNS(a[0]) == 0
+		return ex.i64(token.EQL, timeNSV(a[0]), int64(0))
 	}
-	stdModels["(time.Time).UnixNano"] = func(ex *Exec, c *frame, fn *ssa.Function, a []Value) Value { return timeNS(a[0]) }
+	stdModels["(time.Time).UnixNano"] = func(ex *Exec, c *frame, fn *ssa.Function, a []Value) Value { return timeNSV(a[0]) }
 	stdModels["(time.Time).Unix"] = func(ex *Exec, c *frame, fn *ssa.Function, a []Value) Value {
 		return timeNS(a[0]) / 1_000_000_000
 	}
 	stdModels["(time.Time).Format"] = func(ex *Exec, c *frame, fn *ssa.Function, a []Value) Value {
-		return "T" + itoa(timeNS(a[0]))
+		if ns, concrete := timeNSV(a[0]).(int64); concrete {
+			return "T" + itoa(ns)
+		}
+		return "T?"
 	}
 	stdModels["time.Since"] = func(ex *Exec, c *frame, fn *ssa.Function, a []Value) Value {
-		return ex.scheduler().now - timeNS(a[0])
+		return ex.i64(token.SUB, ex.scheduler().now, timeNSV(a[0]))
 	}
 	stdModels["time.Sleep"] = func(ex *Exec, c *frame, fn *ssa.Function, a []Value) Value {
-		d, _ := a[0].(int64)
 		s := ex.scheduler()
-		t := &timerObj{id: len(s.timers), due: s.now + d}
+		t := &timerObj{id: len(s.timers), due: ex.i64(token.ADD, s.now, a[0])}
 		s.timers = append(s.timers, t)
 		s.block(func() bool { return t.fired }, "sleep")
 		return nil
 	}
-	newTimer := func(ex *Exec, d int64, fn Value) Value {
+	newTimer := func(ex *Exec, d Value, fn Value) Value {
 		s := ex.scheduler()
 		tt := ex.namedType("time", "Timer")
 		st := zero(tt).(*Struct)
-		t := &timerObj{id: len(s.timers), due: s.now + d, fn: fn, vc: s.cur.vc.clone()}
+		t := &timerObj{id: len(s.timers), due: ex.i64(token.ADD, s.now, d), fn: fn, vc: s.cur.vc.clone()}
 		s.cur.vc[s.cur.id]++
 		if fn == nil {
 			t.ch = ex.newChan(1, ex.namedType("time", "Time"))
@@ -256,22 +264,13 @@ func init() {
 		return cell
 	}
 	stdModels["time.NewTimer"] = func(ex *Exec, c *frame, fn *ssa.Function, a []Value) Value {
-		d, ok := a[0].(int64)
-		if !ok {
-			panic(engineErr("symbolic timer duration"))
-		}
-		return newTimer(ex, d, nil)
+		return newTimer(ex, a[0], nil)
 	}
 	stdModels["time.AfterFunc"] = func(ex *Exec, c *frame, fn *ssa.Function, a []Value) Value {
-		d, ok := a[0].(int64)
-		if !ok {
-			panic(engineErr("symbolic timer duration"))
-		}
-		return newTimer(ex, d, a[1])
+		return newTimer(ex, a[0], a[1])
 	}
 	stdModels["time.After"] = func(ex *Exec, c *frame, fn *ssa.Function, a []Value) Value {
-		d, _ := a[0].(int64)
-		cell := newTimer(ex, d, nil).(*Cell)
+		cell := newTimer(ex, a[0], nil).(*Cell)
 		return cell.V.(*Struct).F[0].V
 	}
 	stdModels["(*time.Timer).Stop"] = func(ex *Exec, c *frame, fn *ssa.Function, a []Value) Value {
